@@ -211,6 +211,10 @@ func SysFaultPart(run *report.Run, st *Setup, cases, injPerCase int, sides map[s
 			if k%2 == 1 {
 				t.Outs = append(t.Outs, spec.Out{Kind: "dir", Path: fmt.Sprintf("sf%d.d", k)})
 			}
+			if k%3 == 0 {
+				// a few MiB: its copy into / out of the cache is many system calls
+				t.Outs = append(t.Outs, spec.Out{Kind: "file", Path: fmt.Sprintf("big%d.out", k)})
+			}
 		}
 		gcfg := randCfg(r)
 		if r.Chance(1, 3) || minimal {
@@ -231,6 +235,9 @@ func SysFaultPart(run *report.Run, st *Setup, cases, injPerCase int, sides map[s
 				env.Cleanup()
 			}
 		}()
+		// a third of the cases runs on a terminal (the interactive UI wraps the readers of the
+		// output files in progress trackers)
+		env.MaybeTTY(run, stream+fmt.Sprint(i), 3)
 		cfg := BuildCfg{EnableCache: true, Minimal: gcfg.LoadOutputs == "minimal"}
 		if _, obs, vs, err := env.Step(BuildOpts{}, cfg, "cold", false); err != nil || len(vs) > 0 || obs.Res.Exit != 0 {
 			run.Count("sysfault_cases_skipped_cold_build_diverged", 1)
